@@ -386,9 +386,12 @@ def post_split(args, kwargs, pre, out):
         return
     pts = _points(out[1])
     if k == 1:
-        ctx.count("observed:k=1:split-returns-%s-shares" % ("1" if len(out[1]) == 1 else "n" if len(out[1]) == n else "other"))
+        # SLIP-0039 SplitSecret: "If T is 1, then let y_i = S for all i, 1 <= i <= N": n shares x = 0..n-1, each the secret
+        ctx.count("k=1:split-returns-%s-shares" % ("1" if len(out[1]) == 1 else "n" if len(out[1]) == n else "other"))
         if pts is None or any(y != secret for _, y in pts):
             ctx.violation("split-k1-share-is-not-the-secret", "with threshold 1 every share is the secret itself", case)
+        elif len(pts) != n or sorted(x for x, _ in pts) != list(range(n)):
+            ctx.violation("split-k1-wrong-share-count", f"1-of-{n} split returned {len(pts)} share(s) with x = {[x for x, _ in pts]}; the n custodians need one share each", case)
         return
     if pts is None or len(pts) != n or sorted(x for x, _ in pts) != list(range(n)):
         ctx.violation("split-wrong-share-set", f"expected {n} shares of {len(secret)} bytes with x = 0..{n-1}, got x = {[p[0] for p in out[1]]} with lengths {sorted({len(p[1]) for p in out[1]})}", case)
@@ -427,8 +430,8 @@ def post_generate(args, kwargs, pre, out):
         ctx.violation("generate-wrong-share-count", f"returned {shares!r}", case)
         return
     if k == 1:
-        ctx.count("observed:k=1:generate-returns-%s-shares" % ("1" if len(shares) == 1 else "n" if len(shares) == n else "other"))
-    elif len(shares) != n or len(set(shares)) != n:
+        ctx.count("k=1:generate-returns-%s-shares" % ("1" if len(shares) == 1 else "n" if len(shares) == n else "other"))
+    if len(shares) != n or len(set(shares)) != n:
         ctx.violation("generate-wrong-share-count", f"{len(shares)} shares ({len(set(shares))} distinct) for n={n}", case)
         return
     try:
@@ -447,7 +450,7 @@ def post_generate(args, kwargs, pre, out):
         return
     r = _subset_rng(m, k, n, shares[0])
     if k == 1:
-        subsets = [[s] for s in shares[:2]]
+        subsets = [[s] for s in shares[:2]] + [[shares[-1]]] + ([shares, r.sample(shares, 2)] if n >= 2 else [])
     else:
         subsets = [shares[:k], shares[-k:], r.sample(shares, k), shares]
         if k < n:
